@@ -1197,50 +1197,53 @@ func (t *treasure) GetContentType() ContentType {
 
 	t.mu.RLock()
 	defer t.mu.RUnlock()
+	// read the content pointer once: a writer holds the record guard, not t.mu, and may
+	// replace or clear it between two reads
+	content := t.treasure.Content
 
-	if t.treasure.Content == nil || t.treasure.Content.Void {
+	if content == nil || content.Void {
 		return ContentTypeVoid
 	}
-	if t.treasure.Content.Uint8 != nil {
+	if content.Uint8 != nil {
 		return ContentTypeUint8
 	}
-	if t.treasure.Content.Uint16 != nil {
+	if content.Uint16 != nil {
 		return ContentTypeUint16
 	}
-	if t.treasure.Content.Uint32 != nil {
+	if content.Uint32 != nil {
 		return ContentTypeUint32
 	}
-	if t.treasure.Content.Uint64 != nil {
+	if content.Uint64 != nil {
 		return ContentTypeUint64
 	}
-	if t.treasure.Content.Int8 != nil {
+	if content.Int8 != nil {
 		return ContentTypeInt8
 	}
-	if t.treasure.Content.Int16 != nil {
+	if content.Int16 != nil {
 		return ContentTypeInt16
 	}
-	if t.treasure.Content.Int32 != nil {
+	if content.Int32 != nil {
 		return ContentTypeInt32
 	}
-	if t.treasure.Content.Int64 != nil {
+	if content.Int64 != nil {
 		return ContentTypeInt64
 	}
-	if t.treasure.Content.Float32 != nil {
+	if content.Float32 != nil {
 		return ContentTypeFloat32
 	}
-	if t.treasure.Content.Float64 != nil {
+	if content.Float64 != nil {
 		return ContentTypeFloat64
 	}
-	if t.treasure.Content.String != nil {
+	if content.String != nil {
 		return ContentTypeString
 	}
-	if t.treasure.Content.Boolean != nil {
+	if content.Boolean != nil {
 		return ContentTypeBoolean
 	}
-	if t.treasure.Content.ByteArray != nil {
+	if content.ByteArray != nil {
 		return ContentTypeByteArray
 	}
-	if t.treasure.Content.Uint32Slice != nil {
+	if content.Uint32Slice != nil {
 		return ContentTypeUint32Slice
 	}
 	return ContentTypeVoid
@@ -1968,105 +1971,189 @@ func (t *treasure) SetCreatedAt(guardID guard.ID, createdAt time.Time) {
 func (t *treasure) GetContentString() (string, error) {
 	t.mu.RLock()
 	defer t.mu.RUnlock()
-	if t.treasure.Content == nil || t.treasure.Content.String == nil {
+	// read the content pointer once: a writer holds the record guard, not t.mu, and may
+	// replace or clear it between two reads
+	content := t.treasure.Content
+	if content == nil {
 		return "", fmt.Errorf("content type is not a string")
 	}
-	return *t.treasure.Content.String, nil
+	value := content.String
+	if value == nil {
+		return "", fmt.Errorf("content type is not a string")
+	}
+	return *value, nil
 }
 
 func (t *treasure) GetContentUint8() (uint8, error) {
 	t.mu.RLock()
 	defer t.mu.RUnlock()
-	if t.treasure.Content == nil || t.treasure.Content.Uint8 == nil {
+	// read the content pointer once: a writer holds the record guard, not t.mu, and may
+	// replace or clear it between two reads
+	content := t.treasure.Content
+	if content == nil {
 		return 0, fmt.Errorf("content type is not uint8")
 	}
-	return *t.treasure.Content.Uint8, nil
+	value := content.Uint8
+	if value == nil {
+		return 0, fmt.Errorf("content type is not uint8")
+	}
+	return *value, nil
 }
 func (t *treasure) GetContentUint16() (uint16, error) {
 	t.mu.RLock()
 	defer t.mu.RUnlock()
-	if t.treasure.Content == nil || t.treasure.Content.Uint16 == nil {
+	// read the content pointer once: a writer holds the record guard, not t.mu, and may
+	// replace or clear it between two reads
+	content := t.treasure.Content
+	if content == nil {
 		return 0, fmt.Errorf("content type is not uint16")
 	}
-	return *t.treasure.Content.Uint16, nil
+	value := content.Uint16
+	if value == nil {
+		return 0, fmt.Errorf("content type is not uint16")
+	}
+	return *value, nil
 }
 func (t *treasure) GetContentUint32() (uint32, error) {
 	t.mu.RLock()
 	defer t.mu.RUnlock()
-	if t.treasure.Content == nil || t.treasure.Content.Uint32 == nil {
+	// read the content pointer once: a writer holds the record guard, not t.mu, and may
+	// replace or clear it between two reads
+	content := t.treasure.Content
+	if content == nil {
 		return 0, fmt.Errorf("content type is not uint32")
 	}
-	return *t.treasure.Content.Uint32, nil
+	value := content.Uint32
+	if value == nil {
+		return 0, fmt.Errorf("content type is not uint32")
+	}
+	return *value, nil
 }
 func (t *treasure) GetContentUint64() (uint64, error) {
 	t.mu.RLock()
 	defer t.mu.RUnlock()
-	if t.treasure.Content == nil || t.treasure.Content.Uint64 == nil {
+	// read the content pointer once: a writer holds the record guard, not t.mu, and may
+	// replace or clear it between two reads
+	content := t.treasure.Content
+	if content == nil {
 		return 0, fmt.Errorf("content type is not uint64")
 	}
-	return *t.treasure.Content.Uint64, nil
+	value := content.Uint64
+	if value == nil {
+		return 0, fmt.Errorf("content type is not uint64")
+	}
+	return *value, nil
 }
 func (t *treasure) GetContentInt8() (int8, error) {
 	t.mu.RLock()
 	defer t.mu.RUnlock()
-	if t.treasure.Content == nil || t.treasure.Content.Int8 == nil {
+	// read the content pointer once: a writer holds the record guard, not t.mu, and may
+	// replace or clear it between two reads
+	content := t.treasure.Content
+	if content == nil {
 		return 0, fmt.Errorf("content type is not int8")
 	}
-	return *t.treasure.Content.Int8, nil
+	value := content.Int8
+	if value == nil {
+		return 0, fmt.Errorf("content type is not int8")
+	}
+	return *value, nil
 }
 func (t *treasure) GetContentInt16() (int16, error) {
 	t.mu.RLock()
 	defer t.mu.RUnlock()
-	if t.treasure.Content == nil || t.treasure.Content.Int16 == nil {
+	// read the content pointer once: a writer holds the record guard, not t.mu, and may
+	// replace or clear it between two reads
+	content := t.treasure.Content
+	if content == nil {
 		return 0, fmt.Errorf("content type is not int16")
 	}
-	return *t.treasure.Content.Int16, nil
+	value := content.Int16
+	if value == nil {
+		return 0, fmt.Errorf("content type is not int16")
+	}
+	return *value, nil
 }
 func (t *treasure) GetContentInt32() (int32, error) {
 	t.mu.RLock()
 	defer t.mu.RUnlock()
-	if t.treasure.Content == nil || t.treasure.Content.Int32 == nil {
+	// read the content pointer once: a writer holds the record guard, not t.mu, and may
+	// replace or clear it between two reads
+	content := t.treasure.Content
+	if content == nil {
 		return 0, fmt.Errorf("content type is not int32")
 	}
-	return *t.treasure.Content.Int32, nil
+	value := content.Int32
+	if value == nil {
+		return 0, fmt.Errorf("content type is not int32")
+	}
+	return *value, nil
 }
 
 // GetContentInt64 gets the content of the treasure as an integer
 func (t *treasure) GetContentInt64() (int64, error) {
 	t.mu.RLock()
 	defer t.mu.RUnlock()
-	if t.treasure.Content == nil || t.treasure.Content.Int64 == nil {
+	// read the content pointer once: a writer holds the record guard, not t.mu, and may
+	// replace or clear it between two reads
+	content := t.treasure.Content
+	if content == nil {
 		return 0, fmt.Errorf("content type is not int64")
 	}
-	return *t.treasure.Content.Int64, nil
+	value := content.Int64
+	if value == nil {
+		return 0, fmt.Errorf("content type is not int64")
+	}
+	return *value, nil
 }
 
 func (t *treasure) GetContentFloat32() (float32, error) {
 	t.mu.RLock()
 	defer t.mu.RUnlock()
-	if t.treasure.Content == nil || t.treasure.Content.Float32 == nil {
+	// read the content pointer once: a writer holds the record guard, not t.mu, and may
+	// replace or clear it between two reads
+	content := t.treasure.Content
+	if content == nil {
 		return 0, fmt.Errorf("content type is not a float32")
 	}
-	return *t.treasure.Content.Float32, nil
+	value := content.Float32
+	if value == nil {
+		return 0, fmt.Errorf("content type is not a float32")
+	}
+	return *value, nil
 }
 
 func (t *treasure) GetContentFloat64() (float64, error) {
 	t.mu.RLock()
 	defer t.mu.RUnlock()
-	if t.treasure.Content == nil || t.treasure.Content.Float64 == nil {
+	// read the content pointer once: a writer holds the record guard, not t.mu, and may
+	// replace or clear it between two reads
+	content := t.treasure.Content
+	if content == nil {
 		return 0, fmt.Errorf("content type is not a float64")
 	}
-	return *t.treasure.Content.Float64, nil
+	value := content.Float64
+	if value == nil {
+		return 0, fmt.Errorf("content type is not a float64")
+	}
+	return *value, nil
 }
 
 // GetContentBool gets the content of the treasure as a bool
 func (t *treasure) GetContentBool() (bool, error) {
 	t.mu.RLock()
 	defer t.mu.RUnlock()
-	if t.treasure.Content == nil || t.treasure.Content.Boolean == nil {
+	// read the content pointer once: a writer holds the record guard, not t.mu, and may
+	// replace or clear it between two reads
+	content := t.treasure.Content
+	if content == nil {
 		return false, fmt.Errorf("content type is not a bool")
 	}
-	return *t.treasure.Content.Boolean, nil
+	value := content.Boolean
+	if value == nil {
+		return false, fmt.Errorf("content type is not a bool")
+	}
+	return *value, nil
 }
 
 // GetContentByteArray gets the content of the treasure as a byte array
@@ -2074,13 +2161,16 @@ func (t *treasure) GetContentByteArray() ([]byte, error) {
 
 	t.mu.RLock()
 	defer t.mu.RUnlock()
+	// read the content pointer once: a writer holds the record guard, not t.mu, and may
+	// replace or clear it between two reads
+	content := t.treasure.Content
 
 	// Checking if the content is nil or if the content type is not a byte array.
-	if t.treasure.Content == nil || t.treasure.Content.ByteArray == nil {
+	if content == nil || content.ByteArray == nil {
 		return nil, fmt.Errorf("content type is not a byte array")
 	}
 
-	return t.treasure.Content.ByteArray, nil
+	return content.ByteArray, nil
 
 }
 
